@@ -1,7 +1,7 @@
 (* C08 - the shapes of RulesShape.v against the struct definitions found in the
    source (Gen/CodecGen.v): re-checked by computation on every run. *)
 From Coq Require Import List NArith String Bool.
-From YV Require Import Gen.CodecGen Codec.Reader Codec.Varint Codec.Universe Codec.RulesShape.
+From YV Require Import Gen.CodecGen Gen.RulesTyGen Codec.Reader Codec.Varint Codec.Universe Codec.RulesShape.
 Import ListNotations.
 Local Open Scope string_scope.
 
@@ -32,5 +32,9 @@ Fixpoint mentions_unknown (t : ty) : bool :=
   | TTuple ts | TEnum ts => (fix go (l : list ty) : bool := match l with [] => false | x :: r => mentions_unknown x || go r end) ts
   | _ => false
   end.
-Lemma every_field_has_a_shape : mentions_unknown rules_ty = false.
+(* the shape derived from the Rust definitions is the reviewed one *)
+Lemma generated_shape_is_reviewed : force gen_rules_ty = reviewed_rules_ty.
+Proof. vm_compute. reflexivity. Qed.
+
+Lemma every_field_has_a_shape : mentions_unknown reviewed_rules_ty = false.
 Proof. vm_compute. reflexivity. Qed.
